@@ -641,7 +641,12 @@ type pluginService struct {
 // Configure the plugin and let the Start() of this connection know the result.
 func (s *pluginService) Configure(ctx context.Context, req *api.ConfigureRequest) (*api.ConfigureResponse, error) {
 	rpl, err := s.stub.Configure(ctx, req)
-	s.cfgErrC <- err
+	select {
+	case s.cfgErrC <- err:
+	default:
+		// Start() takes the first result only: a runtime configuring the
+		// plugin again must not get stuck here.
+	}
 	return rpl, err
 }
 
